@@ -178,18 +178,18 @@ def casings(rng, w, k=2):
     return out
 
 
-def gen_spellings(rng):
+def gen_spellings(rng, full=True):
     out = []
     for kws, q, args in VALID:
         base = " ".join(kws)
-        for lead in ("", " ", "   "):
-            for cs in casings(rng, base, 1):
+        for lead in (("", " ", "   ") if full else ("", "  ")):
+            for cs in (casings(rng, base, 1) if full else casings(rng, base, 1)[1:]):
                 if q is None:
                     for tr in TRAILS:
                         out.append(lead + cs + tr)
                     continue
                 for a in args:
-                    for ca in casings(rng, a, 1) if a.isalpha() else [a]:
+                    for ca in (casings(rng, a, 1) if full else casings(rng, a, 1)[::3]) if a.isalpha() else [a]:
                         for ql, qr in (("", ""), ("'", "'"), ("'", ""), ("", "'"), ('"', '"'), ("''", "''")):
                             for tr in TRAILS:
                                 out.append(lead + cs + " " + ql + ca + qr + tr)
@@ -554,7 +554,7 @@ def check(run):
     sets = {
         "token_strings": gen_token_strings(4 if quick else 5),
         "token_edits": gen_token_edits(),
-        "spellings": gen_spellings(rng),
+        "spellings": gen_spellings(rng, full=not quick),
         "near_misses": gen_near_misses(rng),
         "numbers": gen_numbers(rng, 1 if quick else 8),
         "unicode": gen_unicode(rng),
@@ -581,12 +581,14 @@ def check(run):
         else:
             rest.append(i)
     rng.shuffle(rest)
-    idx_coq += rest[: (3000 if quick else 60000)]
-    if quick and len(idx_coq) > 40000:      # keep the quick tier bounded: sample the non-accepted part
+    idx_coq += rest[: (2000 if quick else 60000)]
+    cap = 16000
+    if quick and len(idx_coq) > cap:        # keep the quick tier bounded: all accepted strings + a sample of the others
         keep = [i for i in idx_coq if impl[i] is not None or pyo[i] is not None]
         other = [i for i in idx_coq if not (impl[i] is not None or pyo[i] is not None)]
         rng.shuffle(other)
-        idx_coq = keep + other[: 40000 - len(keep)]
+        idx_coq = keep + other[: max(4000, cap - len(keep))]
+    run.log("implementation and Python oracle done on %d strings" % len(allq))
     coqv = {}
     if proof_ok:
         vals = coq_classify("c13a", [allq[i] for i in idx_coq])
@@ -651,22 +653,27 @@ def check(run):
                 break
         dist["spellings_with_comment_routing"] = len(sub)
 
+    run.log("classification compared")
     # 4b. every Unicode scalar value in every letter position class ----------------------
     if not run.violations:
         evals += fold_scan(run, binp, quick, dist, samples)
 
+    run.log("fold scan done")
     # 4c. message level: NUL handling, non-Q codes, empty body -----------------------------
     if not run.violations and proof_ok:
         evals += message_level(run, binp, distinct, samples)
 
+    run.log("message level done")
     # 4d. sessions: handle / encode vs the real code, and the monitor ------------------------
     if not run.violations:
         evals += sessions(run, binp, quick, proof_ok, src_oracle, distinct, samples, dist)
 
+    run.log("sessions done")
     # 4e. the three encoders on arbitrary strings ------------------------------------------
     if not run.violations and proof_ok:
         evals += encoders(run, binp, quick, distinct, samples, dist)
 
+    run.log("encoders done")
     run.cov["evaluations"] = evals
     run.cov["distinct_nontrivial"] = len(distinct)
     run.cov["rule"] = ("classification: exhaustive strings of 1..%d tokens over a %d-token vocabulary; every valid token sequence with one token deleted/inserted/replaced/duplicated/swapped; "
@@ -766,7 +773,8 @@ def message_level(run, binp, distinct, samples):
         im = ("panic",) if "panic" in o else impl_obs(o)
         mo = model_obs(vlib.parse_coq(v))
         run.cov["traces_validated_against_impl"] += 1
-        if (im and im[0] == "panic") != (mo is not None and mo[0] == "panic") or (not (im and im[0] == "panic") and not same_class(im, mo)):
+        ip, mp = bool(im and im[0] == "panic"), bool(mo and mo[0] == "panic")
+        if ip != mp or (not ip and not same_class(im, mo)):
             run.violation("tie-broken", "message %r body %r: implementation %s, model %s" % (c, b, im, mo),
                           {"correspondence": "Model.v classify_msg vs try_execute_command", "kind_of_input": "raw", "input": {"hex": (c + struct.pack(">i", len(b) + 4) + b).hex()}, "impl": str(im), "model": str(mo)})
             break
@@ -857,7 +865,7 @@ def rand_text(rng, n):
 def encoders(run, binp, quick, distinct, samples, dist):
     rng = run.rng
     items = []
-    fixed = ["", "x", "SET SHARD", "SELECT 1", "a" * 255, "a" * 256, "b" * 65535, "c" * 65536, "z" * 70000, "with\0nul", "é中", "'", "\\"]
+    fixed = ["", "x", "SET SHARD", "SELECT 1", "a" * 255, "a" * 256, "b" * 4000, "z" * 20000, "with\0nul", "é中", "'", "\\"]
     texts = fixed + [rand_text(rng, rng.choice([0, 1, 2, 5, 17, 64, 300])) for _ in range(150 if quick else 3000)]
     for t in texts:
         u = rand_text(rng, rng.choice([0, 1, 7, 40])) if rng.random() < 0.7 else rng.choice(fixed)
